@@ -1025,10 +1025,10 @@ func init() {
 	Register(&Prop{
 		ID:  "C14",
 		Run: runC14,
-		Rule: "case = a history of 3-12/25 API requests (create task from a script or a template, patch script/status/id/template/vars/dbrps, delete, create and patch templates; valid and deliberately rejected ones, template updates that fail on one of their tasks, definitions whose start fails, a definition whose running pipeline fails on certain data (written by a 'boom' operation), some requests issued back to back) over 4 task ids and 2 template ids (one id a prefix of another in both sets), template deletion, interleaved with clean restarts and data writes, issued against the real HTTP handler; after every acknowledged request and every restart the catalogue read through GET /tasks, /tasks/<id> and /templates is compared with a reference catalogue, and executing with enabled; the history is then re-executed with an injected failure at up to 8 underlying storage writes, and with a crash at up to 8 storage transaction boundaries followed by a restart on a byte copy of the Bolt file and the rest of the history; " +
+		Rule: "case = a history of 3-12/25 API requests (create task from a script or a template, patch script/status/id/template/vars/dbrps, delete, create and patch templates; valid and deliberately rejected ones, template updates that fail on one of their tasks, definitions whose start fails, a definition whose running pipeline fails on certain data (written by a 'boom' operation), some requests issued back to back) over 4 task ids and 2 template ids (one id a prefix of another in both sets), template deletion, interleaved with clean restarts and data writes, issued against the real HTTP handler; after every acknowledged request and every restart the catalogue read through GET /tasks, /tasks/<id> and /templates is compared with a reference catalogue, and executing with enabled; the history is then re-executed with an injected failure at up to 8 underlying storage writes inside accepted template updates, and with a crash at up to 8 storage transaction boundaries followed by a restart on a byte copy of the Bolt file and the rest of the history; " +
 			"non-trivial = every case; distinct = distinct (scenario, interleaving signatures) tuples",
 		Real: []string{"services/task_store Service (Open, HTTP handlers, DAOs, updateAllAssociatedTasks, startTask watcher)", "services/storage IndexedStore + Bolt adapter + real bbolt file", "services/httpd Handler routing", "TaskMaster (StartTask/StopTask/DeleteTask), pipeline construction, tick parser/evaluator/formatter"},
 		Stub: []string{"harness StorageService wrapper: crash = abandon the world at a transaction boundary + byte copy; failing Put/Delete/Commit", "server.Server wiring replaced by the harness (storage, alert, task master, task store opened in server order)"},
-		Assumptions: []string{"a request in flight at a crash may or may not have applied: both catalogues are admissible", "scripts are compared in the formatted form the API returns (tick.Format of the model's script)", "the vocabulary is 7 task scripts and 6 template scripts whose declared vars/dbrps/startability are written down by hand in the model", "a template created after the deletion of one with the same id is another template: tasks of the deleted one are not its tasks until a request gives them that template again", "batch tasks and template id changes are not part of the generated histories"},
+		Assumptions: []string{"a request in flight at a crash may or may not have applied: both catalogues are admissible", "scripts are compared in the formatted form the API returns (tick.Format of the model's script)", "the vocabulary is 7 task scripts and 6 template scripts whose declared vars/dbrps/startability are written down by hand in the model", "a template created after the deletion of one with the same id is another template: tasks of the deleted one are not its tasks until a request gives them that template again", "running batch tasks and template id changes are not part of the generated histories (the one batch definition cannot be started)"},
 	})
 }
